@@ -119,24 +119,62 @@ def build():
             del self.wire[:]
             self.SSM = SSM
 
+        def bound(self):
+            """seconds after which no transaction can still be alive when nothing more arrives:
+            (retries + 1) x the longest timeout a state machine arms, plus a margin"""
+            ld, sm = self.smap.localDevice, self.smap
+            longest = max(ld.apduTimeout, 4 * ld.apduSegmentTimeout, sm.applicationTimeout)
+            return (ld.numberOfApduRetries + 1) * longest / 1000.0 + 10.0
+
+        def snapshot(self):
+            return set(id(t) for (_w, t) in self.vt.pending())
+
+        def leftover(self, baseline):
+            """tasks scheduled now that were not scheduled at `baseline`:
+            -> (all of them, those the unchanged code has no business keeping) as [description, seconds ahead].
+            Legitimate: the re-enable timer of a DeviceCommunicationControl with a time duration (communication is
+            not 'enable' now), the delayed Network-Number-Is answer of a station that KNOWS its network number."""
+            allt, bad = [], []
+            for (w, t) in self.vt.pending():
+                if id(t) in baseline:
+                    continue
+                d = [describe_task(t), round(w - self.vt.now, 3)]
+                allt.append(d)
+                if d[0].endswith(":enable_communications") and self.smap.dccEnableDisable != 'enable':
+                    continue
+                if d[0].endswith(":network_number_is") and self.nsap.local_adapter.adapterNet is not None \
+                        and self.nse.network_number_is_task is t:
+                    continue
+                bad.append(d)
+            return allt, bad
+
         def inject(self, frames, settle=None):
-            """all frames in the same instant; then run until nothing is left
-            (SSM timers included), or for `settle` seconds.  A frame is octets (sent by
+            """all frames in the same instant; then run for a BOUNDED time (longer than any transaction
+            can live) and note what is still scheduled (`late_tasks`, `unexpected_tasks`); then until
+            nothing is left (or, with `settle`, only for that many seconds).  A frame is octets (sent by
             station PEER), a pair (sending station, octets) or a triple (station, octets, broadcast)."""
             n0 = len(self.peer.received)
             w0 = len(self.wire)
             e0 = len(self.vt.errors)
+            base = self.snapshot()
             for f in frames:
                 if isinstance(f, tuple):
                     # (station, octets) or (station, octets, True) for a link-level broadcast
                     self.peers[f[0]].send(f[1], None if (len(f) > 2 and f[2]) else DEVICE)
                 else:
                     self.peer.send(f)
-            ok = self.vt.run(until=(self.vt.now + settle) if settle else None, max_loops=20000)
+            late, bad = [], []
+            if settle:
+                ok = self.vt.run(until=self.vt.now + settle, max_loops=20000)
+            else:
+                ok = self.vt.run(until=self.vt.now + self.bound(), max_loops=20000)
+                late, bad = self.leftover(base)
+                ok = self.vt.run(max_loops=20000) and ok
             raw = self.peer.received[n0:]
             return {"terminated": ok,
                     "replies": [(decode_apdu_header(r), r) for r in raw],
                     "wire": [(a, decode_apdu_header(r), r) for (a, r) in self.wire[w0:]],
+                    "late_tasks": late, "unexpected_tasks": bad,
                     "errors": self.vt.errors[e0:]}
 
         def residue(self):
@@ -147,6 +185,19 @@ def build():
                     "dcc": getattr(self.smap, "dccEnableDisable", None)}
 
     return Device
+
+
+def describe_task(task):
+    """class of a scheduled task, with the function a FunctionTask / OneShotFunction wraps"""
+    name = type(task).__name__
+    try:
+        f = task.process_task.__func__
+        cells = dict(zip(f.__code__.co_freevars, f.__closure__ or ()))
+        fn = cells["fn"].cell_contents
+        name += ":" + getattr(fn, "__name__", repr(fn))
+    except Exception:
+        pass
+    return name
 
 
 # ------------------------------------------------------------------ valid request templates
@@ -376,4 +427,6 @@ def judge(frame, out, residue):
         fails.append(("residue-transaction", "leftover transactions %r" % (residue,)))
     if residue["ssm_timers"]:
         fails.append(("residue-timer", "leftover transaction timers %r" % (residue,)))
+    if out.get("unexpected_tasks"):
+        fails.append(("residue-timer", "still scheduled after every transaction must be over: %r" % (out["unexpected_tasks"],)))
     return fails
